@@ -110,6 +110,11 @@ def main():
             failures.append(f)
     for k in kani_results:
         for f in k.get('failures', []):
+            # a harness of a shared set that belongs to another property only (e.g. the isolated class of a
+            # known finding of that property) is listed, and does not decide this check
+            if f.get('props') and pid not in f['props']:
+                other_failures.append(f)
+                continue
             failures.append(f)
         if k.get('status') == 'undecided':
             undecided.append(k)
